@@ -297,6 +297,9 @@ pub struct Interp<'a> {
     pub tx_builder: Option<TxBuilderFn>,
     /// optional replacement of the spendable-cell filter used with `tx_builder`
     pub spendable_filter: Option<fn(&Env, &LiveCell) -> bool>,
+    /// never spend cellbase outputs (genesis excepted) in generated transactions (specs with cellbase_maturity > 0:
+    /// the generated history must stay valid, maturity is exercised by C04's own candidates)
+    pub exclude_cellbase_inputs: bool,
 }
 
 /// signature of `build_tx`
@@ -314,6 +317,7 @@ impl<'a> Interp<'a> {
             tolerate_reward_quirk: true,
             tx_builder: None,
             spendable_filter: None,
+            exclude_cellbase_inputs: false,
         }
     }
 
@@ -462,6 +466,7 @@ impl<'a> Interp<'a> {
                 Some(f) => f(self.env, c),
                 None => is_spendable_lock(self.env, &c.output.lock()) && c.output.type_().to_opt().is_none(),
             })
+            .filter(|(_, c)| !(self.exclude_cellbase_inputs && c.cellbase && c.block_number > 0))
             .map(|(k, c)| (*k, (c.output.clone(), c.data.len())))
             .collect()
     }
